@@ -89,7 +89,9 @@ func buildBlockStatements(closureContext *parser.ClosureContext) []core_domain.C
 			if argListCtx := parenthesisedArguments(pathExpression.GetChild(1)); argListCtx != nil {
 				for _, argElement := range argListCtx.AllEnhancedArgumentListElement() {
 					if text, ok := stringLiteralText(argElement); ok {
-						result = ConvertToJDep(text)
+						if dep := ConvertToJDep(text); dep != nil {
+							result = dep
+						}
 					}
 				}
 			}
@@ -98,7 +100,10 @@ func buildBlockStatements(closureContext *parser.ClosureContext) []core_domain.C
 		// normal: developmentOnly 'org.springframework.boot:spring-boot-devtools'
 		if commandExprCtx.GetChildCount() >= 2 {
 			if argumentListContext, ok := commandExprCtx.GetChild(1).(*parser.ArgumentListContext); ok {
-				result = BuildDependency(argumentListContext)
+				// what follows a parenthesised coordinate replaces it only when it is a coordinate itself
+				if dep := BuildDependency(argumentListContext); dep != nil {
+					result = dep
+				}
 			}
 		}
 
@@ -154,7 +159,9 @@ func BuildDependency(argumentListContext *parser.ArgumentListContext) *core_doma
 	var result *core_domain.CodeDependency = nil
 	for _, arg := range argumentListContext.AllArgumentListElement() {
 		if text, ok := stringLiteralText(arg); ok {
-			result = ConvertToJDep(text)
+			if dep := ConvertToJDep(text); dep != nil {
+				result = dep
+			}
 		}
 	}
 	return result
@@ -178,5 +185,9 @@ func stringLiteralText(node antlr.Tree) (string, bool) {
 func ConvertToJDep(result string) *core_domain.CodeDependency {
 	withQuote := strings.ReplaceAll(strings.ReplaceAll(result, "'", ""), "\"", "")
 	split := strings.Split(withQuote, ":")
+	if len(split) < 2 {
+		// a string that is no group:artifact[:version] coordinate, e.g. a comment the lexer hands over as a slashy string
+		return nil
+	}
 	return core_domain.NewCodeDependency(split[0], split[1])
 }
